@@ -178,7 +178,10 @@ func reflectTypeOfArg(v ssa.Value) types.Type {
 
 func ruleSliceWrapOnly(c *Ctx) {
 	// since the FEAS formulation T.slicewrap itself demands that no other codec
-	// is live for a slice: nothing left to do here
+	// is live for a slice: run it unless this property already has
+	if c.Rules["T.slicewrap"] == nil {
+		ruleSliceWrap(c)
+	}
 }
 
 func joinStrs(s []string) string {
